@@ -190,6 +190,9 @@ type world struct {
 	zombieNotify map[*act.Gate]bool
 	inflight     int // detector check goroutines that have not returned yet
 	rpcErrors    int // transient RPC errors injected so far (budget 1)
+	// blocks handed to the reorg detector (AddBlockToTrack succeeded) whose ProcessBlock never succeeded: the node was
+	// stopped between the two calls of EVMDriver.handleNewBlock. The tracker then holds a block the store never held.
+	trackedUnprocessed map[uint64]common.Hash
 }
 
 type incarnation struct {
@@ -221,7 +224,11 @@ func (s *storeWrap) ProcessBlock(ctx context.Context, b aggsync.Block) error {
 	if d := s.w.sched.EnterCtx(ctx, "2drv", "ProcessBlock", fmt.Sprint(b.Num), b); d.Err != nil || s.inc.dead {
 		return errStopped
 	}
-	return s.inc.store.W.ProcessBlock(ctx, b)
+	err := s.inc.store.W.ProcessBlock(ctx, b)
+	if err == nil {
+		delete(s.w.trackedUnprocessed, b.Num)
+	}
+	return err
 }
 
 func (s *storeWrap) Reorg(ctx context.Context, first uint64) error {
@@ -289,7 +296,11 @@ func (r *rdWrap) AddBlockToTrack(ctx context.Context, id string, num uint64, has
 	if d := r.w.sched.EnterCtx(ctx, "2drv", "AddBlockToTrack", fmt.Sprint(num), num); d.Err != nil || r.inc.dead {
 		return errStopped
 	}
-	return r.inc.rd.AddBlockToTrack(ctx, id, num, hash)
+	err := r.inc.rd.AddBlockToTrack(ctx, id, num, hash)
+	if err == nil {
+		r.w.trackedUnprocessed[num] = hash
+	}
+	return err
 }
 func (r *rdWrap) GetFinalizedBlockType() aggkittypes.BlockNumberFinality {
 	return r.inc.rd.GetFinalizedBlockType()
@@ -347,7 +358,16 @@ func (w *world) onReorg(first uint64) {
 	}
 	switch {
 	case !w.everReplaced && deletes:
-		w.c.Failf("rewound-although-nothing-processed-was-replaced", "%s: Reorg(%d) deletes processed blocks but no processed block was ever replaced (processed %v are canonical)", w.p, first, nums(rows))
+		key := "rewound-although-nothing-processed-was-replaced"
+		why := ""
+		if h, ok := w.trackedUnprocessed[first]; ok && (first > w.chain.Tip() || w.chain.Hash(first) != h) {
+			// the one history that is recorded as a known finding: the node was stopped between AddBlockToTrack(b) and
+			// ProcessBlock(b), b was replaced, and the new fork's b is not delivered again (no watched event): the detector
+			// still holds the old b and reports it, the driver rewinds canonical blocks >= b that it has to fetch again
+			key += "/block-tracked-before-a-stop-but-never-processed-was-replaced"
+			why = fmt.Sprintf("; block %d was handed to the reorg detector by an earlier incarnation that was stopped before it processed it", first)
+		}
+		w.c.Failf(key, "%s: Reorg(%d) deletes processed blocks but no processed block was ever replaced (processed %v are canonical)%s", w.p, first, nums(rows), why)
 	case firstBad == 0 && deletes:
 		// a redundant rewind after a crash between handling a reorg and acknowledging it: the antecedent
 		// of the clause (nothing processed was replaced) does not hold in this execution
@@ -447,7 +467,7 @@ func run(c *mc.Ctx, u mc.Unit) {
 	}
 	chain.Visible = chain.Tip()
 	chain.Finalized = p.Finalized
-	w := &world{c: c, p: p, sched: sched, chain: chain, lastDetect: -1}
+	w := &world{c: c, p: p, sched: sched, chain: chain, lastDetect: -1, trackedUnprocessed: map[uint64]common.Hash{}}
 	// every object that opens a database is constructed BEFORE the bubble (one set per incarnation)
 	storePath := filepath.Join(dir, "l1info.sqlite")
 	rdPath := filepath.Join(dir, "rd.sqlite")
